@@ -607,6 +607,10 @@ impl<'a> Blitter for ShaderBlendBlitter<'a> {
 
 
 fn is_integer_transform(trans: &Transform) -> Option<IntPoint> {
+    #[cfg(feature = "verif")]
+    if crate::verif::buggify(crate::verif::BuggifySite::ImageIntTransform) {
+        return None;
+    }
     if trans.m11 == 1. &&
         trans.m12 == 0. &&
         trans.m21 == 0. &&
@@ -649,28 +653,40 @@ pub fn choose_shader<'a, 'b, 'c>(ti: &Transform, src: &'b Source<'c>, alpha: f32
 
     *shader_storage = match src {
         Source::Solid(c) => {
+            #[cfg(feature = "verif")]
+            crate::verif::probe(crate::verif::ProbeSite::ShSolid);
             let color = alpha_mul(c.to_u32(), alpha_to_alpha256(alpha));
             let s = SolidShader { color };
             ShaderStorage::Solid(s)
         }
         Source::Image(ref image, ExtendMode::Pad, filter, transform) => {
             if let Some(offset) = is_integer_transform(&ti.then(&transform)) {
+                #[cfg(feature = "verif")]
+                crate::verif::probe(crate::verif::ProbeSite::ShImagePadAlpha);
                 ShaderStorage::ImagePadAlpha(ImagePadAlphaShader::new(image, offset.x, offset.y, alpha))
             } else {
                 if alpha != 255 {
                     if *filter == FilterMode::Bilinear {
                         let s = TransformedImageAlphaShader::<PadFetch>::new(image, &ti.then(&transform), alpha);
+                        #[cfg(feature = "verif")]
+                        crate::verif::probe(crate::verif::ProbeSite::ShTransformedPadImageAlpha);
                         ShaderStorage::TransformedPadImageAlpha(s)
                     } else {
                         let s = TransformedNearestImageAlphaShader::<PadFetch>::new(image, &ti.then(&transform), alpha);
+                        #[cfg(feature = "verif")]
+                        crate::verif::probe(crate::verif::ProbeSite::ShTransformedNearestPadImageAlpha);
                         ShaderStorage::TransformedNearestPadImageAlpha(s)
                     }
                 } else {
                     if *filter == FilterMode::Bilinear {
                         let s = TransformedImageShader::<PadFetch>::new(image, &ti.then(&transform));
+                        #[cfg(feature = "verif")]
+                        crate::verif::probe(crate::verif::ProbeSite::ShTransformedPadImage);
                         ShaderStorage::TransformedPadImage(s)
                     } else {
                         let s = TransformedNearestImageShader::<PadFetch>::new(image, &ti.then(&transform));
+                        #[cfg(feature = "verif")]
+                        crate::verif::probe(crate::verif::ProbeSite::ShTransformedNearestPadImage);
                         ShaderStorage::TransformedNearestPadImage(s)
                     }
                 }
@@ -678,22 +694,32 @@ pub fn choose_shader<'a, 'b, 'c>(ti: &Transform, src: &'b Source<'c>, alpha: f32
         }
         Source::Image(ref image, ExtendMode::Repeat, filter, transform) => {
             if let Some(offset) = is_integer_transform(&ti.then(&transform)) {
+                #[cfg(feature = "verif")]
+                crate::verif::probe(crate::verif::ProbeSite::ShImageRepeatAlpha);
                 ShaderStorage::ImageRepeatAlpha(ImageRepeatAlphaShader::new(image, offset.x, offset.y, alpha))
             } else {
                 if *filter == FilterMode::Bilinear {
                     if alpha != 255 {
                         let s = TransformedImageAlphaShader::<RepeatFetch>::new(image, &ti.then(&transform), alpha);
+                        #[cfg(feature = "verif")]
+                        crate::verif::probe(crate::verif::ProbeSite::ShTransformedRepeatImageAlpha);
                         ShaderStorage::TransformedRepeatImageAlpha(s)
                     } else {
                         let s = TransformedImageShader::<RepeatFetch>::new(image, &ti.then(&transform));
+                        #[cfg(feature = "verif")]
+                        crate::verif::probe(crate::verif::ProbeSite::ShTransformedRepeatImage);
                         ShaderStorage::TransformedRepeatImage(s)
                     }
                 } else {
                     if alpha != 255 {
                         let s = TransformedNearestImageAlphaShader::<RepeatFetch>::new(image, &ti.then(&transform), alpha);
+                        #[cfg(feature = "verif")]
+                        crate::verif::probe(crate::verif::ProbeSite::ShTransformedNearestRepeatImageAlpha);
                         ShaderStorage::TransformedNearestRepeatImageAlpha(s)
                     } else {
                         let s = TransformedNearestImageShader::<RepeatFetch>::new(image, &ti.then(&transform));
+                        #[cfg(feature = "verif")]
+                        crate::verif::probe(crate::verif::ProbeSite::ShTransformedNearestRepeatImage);
                         ShaderStorage::TransformedNearestRepeatImage(s)
                     }
                 }
@@ -701,18 +727,26 @@ pub fn choose_shader<'a, 'b, 'c>(ti: &Transform, src: &'b Source<'c>, alpha: f32
         }
         Source::RadialGradient(ref gradient, spread, transform) => {
             let s = RadialGradientShader::new(gradient, &ti.then(&transform), *spread, alpha);
+            #[cfg(feature = "verif")]
+            crate::verif::probe(crate::verif::ProbeSite::ShRadialGradient);
             ShaderStorage::RadialGradient(s)
         }
         Source::TwoCircleRadialGradient(ref gradient, spread, c1, r1, c2, r2, transform) => {
             let s = TwoCircleRadialGradientShader::new(gradient, &ti.then(&transform), *c1, *r1, *c2, *r2, *spread, alpha);
+            #[cfg(feature = "verif")]
+            crate::verif::probe(crate::verif::ProbeSite::ShTwoCircleRadialGradient);
             ShaderStorage::TwoCircleRadialGradient(s)
         }
         Source::SweepGradient(ref gradient, spread, start_angle, end_angle, transform) => {
             let s = SweepGradientShader::new(gradient, &ti.then(&transform), *start_angle, *end_angle, *spread, alpha);
+            #[cfg(feature = "verif")]
+            crate::verif::probe(crate::verif::ProbeSite::ShSweepGradient);
             ShaderStorage::SweepGradient(s)
         }
         Source::LinearGradient(ref gradient, spread, transform) => {
             let s = LinearGradientShader::new(gradient, &ti.then(&transform), *spread, alpha);
+            #[cfg(feature = "verif")]
+            crate::verif::probe(crate::verif::ProbeSite::ShLinearGradient);
             ShaderStorage::LinearGradient(s)
         }
     };
